@@ -1,5 +1,5 @@
 """C17, whole counts: statutory rules produce an identical count whatever options are supplied."""
-import re
+import re, collections
 import count_driver as cd
 from common import rng_for
 
@@ -25,7 +25,7 @@ def run(chk, ctx):
             head, rest = blt.split('\n', 1)
             blt2 = head + '\n[droop %s]\n' % ' '.join(fileopts) + rest
         cases.append((blt, dict(rule=rule), blt2, cmd))
-    res = cd.run_cases([(b, o) for b, o, b2, o2 in cases] + [(b2, o2) for b, o, b2, o2 in cases], timeout=15, use_model=False)
+    res = cd.run_cases([(b, o) for b, o, b2, o2 in cases] + [(b2, o2) for b, o, b2, o2 in cases], timeout=15, use_model=False, oracle_names=('c17_report_header',))
     for k, (b, o, b2, o2) in enumerate(cases):
         x, y = res[k], res[k + len(cases)]
         if 'timeout' in (x['status'], y['status']): continue
@@ -35,4 +35,16 @@ def run(chk, ctx):
                           dict(blt=b2, options=o2, plain_status=x['status'], status=y['status'], message=y.get('msg'),
                                first_difference=cd.first_diff(x['trace'], y['trace'])),
                           signature=dict(kind='c17-immunity', rule=o['rule']))
+    nhead = collections.Counter()
+    for k, x in enumerate(res):
+        if x['status'] != 'ok': continue
+        b, o = (cases[k][0], cases[k][1]) if k < len(cases) else (cases[k - len(cases)][2], cases[k - len(cases)][3])
+        chk.count()
+        nhead['header checked'] += 1
+        for name, v in x.get('oracle', []):
+            if v.startswith('ORACLE-ERROR'):
+                raise RuntimeError(v)
+            chk.violation("the report header does not name the unused / overridden options", dict(blt=b, options=o, failure=v),
+                          signature=dict(kind='c17-report-header', rule=o['rule']))
     chk.cov['immunity_pairs'] = len(cases)
+    chk.cov['report_headers'] = dict(nhead)
